@@ -70,20 +70,28 @@ def _sweep_job(job):
     return sweep.run_pair(job)
 
 
-def run_sweep(seed, cap, workers=16, progress=True):
+def run_sweep(seed, cap, workers=16, progress=True, chunk=500):
     from .source import NAMES
-    jobs = [(seed, i, cap) for i in range(len(NAMES))]
-    # heaviest callables first so that the tail of the batch is short
     calls = runner.BOOT.get('calls', {})
     steps = runner.BOOT.get('steps', {})
-    jobs.sort(key=lambda j: -(calls.get(NAMES[j[1]], 0) if cap == 0 else 1) * steps.get(NAMES[j[1]], 1))
+    jobs = []
+    for i in range(len(NAMES)):
+        nb = int(max(calls.get(NAMES[i], 0), 2) * 1.05) + 2
+        if cap == 0 and nb > chunk:
+            # the boundaries of a long callable are split over several jobs (same seeded pair in each)
+            for lo in range(1, nb + 1, chunk):
+                jobs.append((seed, i, 0, lo, min(nb, lo + chunk - 1)))
+        else:
+            jobs.append((seed, i, cap))
+    # heaviest first so that the tail of the batch is short
+    jobs.sort(key=lambda j: -steps.get(NAMES[j[1]], 1))
     res = []
     t0 = _perf()
     with ProcessPoolExecutor(workers, mp_context=mp.get_context('fork'), initializer=_init_worker) as ex:
         for k, r in enumerate(ex.map(_sweep_job, jobs, chunksize=1)):
             res.append(r)
-            if progress and cap == 0 and (k + 1) % 50 == 0:
-                sys.stdout.write('  .. sweep %d/%d callables, %.0fs\n' % (k + 1, len(jobs), _perf() - t0))
+            if progress and cap == 0 and (k + 1) % 100 == 0:
+                sys.stdout.write('  .. sweep %d/%d jobs, %.0fs\n' % (k + 1, len(jobs), _perf() - t0))
                 sys.stdout.flush()
     return res
 
@@ -236,6 +244,7 @@ def write_evidence(results, seed, tier, wall, nviol, extra=None):
     herr = 0
     byname = collections.Counter()
     cpu = 0.0
+    swept_names = set()
     sweep = {'callables_swept': 0, 'runs': 0, 'callables_needing_a_pool_receiver_left_to_random_engines': 0,
              'boundaries_of_swept_callables': 0, 'harness_errors': 0}
     for r in results:
@@ -243,9 +252,11 @@ def write_evidence(results, seed, tier, wall, nviol, extra=None):
             if r['pair'] is None:
                 sweep['callables_needing_a_pool_receiver_left_to_random_engines'] += 1
                 continue
-            sweep['callables_swept'] += 1
+            if r['pair'][0] not in swept_names:
+                swept_names.add(r['pair'][0])
+                sweep['callables_swept'] += 1
+                sweep['boundaries_of_swept_callables'] += r['pair'][2]
             sweep['runs'] += r['runs']
-            sweep['boundaries_of_swept_callables'] += r['pair'][2]
             sweep['harness_errors'] += r['harness_errors']
             tot.update(r['counters'])
             digests.update(r['digests'])
